@@ -10,6 +10,9 @@ CHECKS = {
 CHECKS["C01"] = ("model_checking", "bounded-exhaustive explicit-state exploration of the real code: all physically consistent histories of D steps x {ascending, descending} completion on every config of the enumerated universes + the complete capacity family; liveness-to-idle oracle through the real can_block_update_idle_waiting/tick_ms loop",
   "Every explored execution ends, after all keys are released, with the real idle loop reporting idle within the horizon, an empty OS-down set, and no later output. Exhaustive within the stated config universes and depth.",
   "settle horizon 400 ticks (all time constants <= 8); latching actions and live reload excluded as the property allows; known findings (queue-overflow class, two chords-v2 interactions) in known_findings.json", "DESIGN.md §4 C01")
+CHECKS["C03"] = ("exploration", "bounded-exhaustive enumeration: all single structure-aware mutations of every seed config in the tree, all token strings up to length 5 over a 24-token alphabet, complete self-reference families; crash/diagnostic oracle with per-input crash attribution in worker processes",
+  "Every text of three complete finite spaces is parsed by the real parser; each yields Ok or a diagnostic whose spans are readable from the named source and whose rendering returns; no panic, no abort. Exhaustive over the stated spaces (exhaustive=true in the evidence when no cap was hit).",
+  "texts more than one mutation away from every seed / longer than 5 tokens are not covered; termination approximated by the deadline", "DESIGN.md §4 C03")
 NOT_YET = {}
 props = [json.loads(l) for l in open('/verif/properties.jsonl')]
 hooks_commits = subprocess.run(["git","-C","/repo","log","--format=%h %s"],capture_output=True,text=True).stdout.splitlines()
